@@ -303,3 +303,23 @@ def call_on_all_paths(ctx, rule, construct, f, spec, desc, consumed=True):
     cs = A.direct_calls(f, spec)
     ok = bool(cs) and A.must_pass(f, [c.block for c in cs])[0] and (not consumed or all(A.consumed(f, c.block)[0] for c in cs))
     return ctx.inst(rule, construct, ok, desc, "%d call sites" % len(cs), cs[0].loc if cs else f.loc(f.raw["span"]))
+
+
+def transfer_sites(ctx, h, skey):
+    """SPL transfer call sites of the Bank helper methods in handler h"""
+    out = []
+    for c in h.calls():
+        nm = c.callee["name"] if c.callee else ""
+        if nm not in ("deposit_spl_transfer", "withdraw_spl_transfer"):
+            continue
+        a = c.args
+        ent = {"call": c, "kind": nm.split("_")[0], "amount": ctx.slicer.operand(h, a[1], at=c.block),
+               "bank": acct_fields(ctx.slicer.operand(h, a[0], at=c.block), skey),
+               "from": acct_fields(ctx.slicer.operand(h, a[2], at=c.block), skey), "to": acct_fields(ctx.slicer.operand(h, a[3], at=c.block), skey),
+               "authority": acct_fields(ctx.slicer.operand(h, a[4], at=c.block), skey), "vault_types": set(), "seeds": None}
+        if nm == "withdraw_spl_transfer":
+            sd = ctx.slicer.operand(h, a[7], at=c.block)
+            ent["seeds"] = sd
+            ent["vault_types"] = {v for (ad, v) in sd.variants if ad.endswith("BankVaultType")}
+        out.append(ent)
+    return out
